@@ -36,7 +36,7 @@ def x_defs(e):
 class Mat:
     """A materialised scenario."""
 
-    def __init__(self, scen, base, seed=0, alias=None, ext_c=".c", plain=False, ext_of=None, dotted=False):
+    def __init__(self, scen, base, seed=0, alias=None, ext_c=".c", plain=False, ext_of=None, dotted=False, crlf=()):
         self.scen = scen
         self.base = base                      # temp dir
         self.root = os.path.join(base, "root")
@@ -68,8 +68,9 @@ class Mat:
                 # the copy is a second directory entry of the same inode (cp -l): still an ordinary file
                 os.link(self.paths[f["copyof"]], path)
             else:
-                with open(path, "w") as fh:
-                    fh.write(text)
+                # newline="" keeps the text as is; files listed in `crlf` get DOS line endings (same lines)
+                with open(path, "w", newline="") as fh:
+                    fh.write(text.replace("\n", "\r\n") if fid in crlf else text)
             self.paths[fid] = os.path.realpath(path)
             self.lines_of[fid] = lines_of
             self.text[fid] = text
@@ -108,8 +109,31 @@ class Mat:
             if e.get("ghost"):
                 ghost = os.path.join(self.root, "src", f"generated_{len(db)}.c")
                 db.append({"directory": self.root, "file": ghost, "arguments": ["gcc", "-c", ghost]})
-            db.append({"directory": self.root, "file": (kw.get("spell_file") or (lambda f: self.paths[f]))(e["file"]),
-                       "arguments": self.argv(e, rnd, **kw)})
+            ent = {"directory": self.root, "file": (kw.get("spell_file") or (lambda f: self.paths[f]))(e["file"]),
+                   "arguments": self.argv(e, rnd, **{k: v for k, v in kw.items() if k != "mixed_dirs"})}
+            if kw.get("mixed_dirs") and not e["forced"]:
+                form = rnd.choice(["keyed_root", "keyed_other_abs", "keyless_rel"])
+                if form == "keyed_other_abs":
+                    # another working directory; everything spelled absolutely, so it does not matter
+                    os.makedirs(os.path.join(self.root, "build"), exist_ok=True)
+                    ent["directory"] = os.path.join(self.root, "build")
+                elif form == "keyless_rel":
+                    # no "directory": relative paths are relative to the analysis root
+                    del ent["directory"]
+                    rr = os.path.realpath(self.root)
+
+                    def relroot(p):
+                        return os.path.relpath(p, rr) if os.path.realpath(p).startswith(rr + os.sep) else p
+                    ent["file"] = relroot(ent["file"])
+                    args = []
+                    for a in ent["arguments"]:
+                        if a.startswith("-I") and len(a) > 2 and os.path.isabs(a[2:]):
+                            a = "-I" + relroot(a[2:])
+                        elif os.path.isabs(a) and os.path.exists(a):
+                            a = relroot(a)
+                        args.append(a)
+                    ent["arguments"] = args
+            db.append(ent)
         return db
 
     def load_configuration(self, ents_by_plat, rnd, **kw):
